@@ -164,7 +164,7 @@ def canary(rep, evs, tag):
 
 
 # ------------------------------------------------------------------------------------- C02
-B_SLOTS = ["b_out_amount", "b_mint", "b_burn", "b_since", "b_until", "b_meta_value", "b_meta_key", "b_datum", "b_redeemer",
+B_SLOTS = ["b_out_amount", "b_mint", "b_burn", "b_mint2", "b_burn2", "b_mint_burn", "b_since", "b_until", "b_meta_value", "b_meta_key", "b_datum", "b_redeemer",
            "b_index", "b_balanced"]
 
 
@@ -223,7 +223,7 @@ CHECK_DEADLOCK FALSE
 """
 FEATURES = ["metadata", "input_redeemer", "mint", "mint_redeemer", "burn_same", "burn_other_asset", "burn_all",
             "optional_empty", "optional_full", "reference", "reference_twice", "collateral", "signers", "signers_dup",
-            "datum", "second_input", "validity"]
+            "signers_apart", "datum", "second_input", "validity"]
 
 
 def gen_ledger(rep, mode, tag, ninputs=2, features=(), ixs=(0,), nfs=(0,), workers=6, simulate=None, seed=None):
@@ -351,7 +351,7 @@ def check_c10(tier, seed):
     core.build_driver()
     quick = tier == "quick"
     feats = FEATURES if not quick else ["metadata", "input_redeemer", "mint", "mint_redeemer", "burn_same", "burn_other_asset",
-                                        "burn_all", "optional_empty", "reference_twice", "signers", "signers_dup", "collateral"]
+                                        "burn_all", "optional_empty", "reference_twice", "signers", "signers_dup", "signers_apart", "collateral"]
     cases = gen_ledger(rep, "c10", "c10_mc", features=feats, workers=6 if quick else 12)
     rep.exhaustive = True
     rng = random.Random(seed)
